@@ -163,7 +163,10 @@ def one(case, pn, tn, acc):
     faults = {(f[0], f[1]): f[2] for f in case.get('faults', ())}
     w = H.World(H.hs_server(steps, spec), cuts=cuts, horizon=horizon, budget=20000, faults=faults,
                 stop_at=max(horizon, 18.0) if 'drip' in case['seq'] else None)
-    run = H.drive(w, connect_kwargs=ckw, policy=H.TablePolicy(POLICIES[pn]))
+    # "every server behaviour, every application reaction and every fault" - for whatever URL the application has:
+    # explicit ports, userinfo, IPv6 literals, resources and queries outside ASCII
+    url = URL_SHAPES[(len(case['seq']) * 7 + len(pn) + len(tn) + len(hsname)) % len(URL_SHAPES)]
+    run = H.drive(w, url=url, connect_kwargs=ckw, policy=H.TablePolicy(POLICIES[pn]))
     judge(run, w, acc, dict(case, policy=pn, timer=tn))
     if run.end == 'stop' and (len(case['seq']) + len(pn) + len(tn)) % 3 == 0:
         # the same history once more on the SAME WebSocket object (reconnect): same grammar
@@ -235,6 +238,10 @@ def overdue_timeout(run, w, ckw):
         if now - last > pt + 2 * p + 1e-9:
             return 'no-termination-after-ping-timeout-elapsed'
     return None
+
+
+URL_SHAPES = ('ws://example.com/', 'ws://example.com/', 'ws://example.com:8080/a/b?x=1', 'ws://user:pw@example.com/u',
+              'ws://[2001:db8::7]:81/six', 'ws://example.com/caf\u00e9/\u2603?name=J\u00fcrgen', 'ws://EXAMPLE.com?q=%7E')
 
 
 def run_conn(case, acc):
